@@ -105,6 +105,9 @@ func callSite() string {
 	}
 }
 
+// Rel returns the path relative to the simulated root.
+func Rel(p string) string { return rel(p) }
+
 func rel(p string) string {
 	if W.Root != "" && strings.HasPrefix(p, W.Root) {
 		r := strings.TrimPrefix(p[len(W.Root):], "/")
